@@ -199,7 +199,7 @@ Proof.
   2: { rewrite !He. reflexivity. }
   rewrite !HP. apply IH.
   destruct Hsim as [[Hown Hnd] Hsp Hc].
-  assert (Hsets : f_sets (set_cells f (P ++ f_cells f)) = f_sets (nth j cst no_file)) by reflexivity.
+  assert (Hsets : f_sets (wrote f (P ++ f_cells f) i) = f_sets (nth j cst no_file)) by reflexivity.
   constructor.
   - split.
     + apply Forall_forall. intros g Hg. apply In_nth with (d := no_file) in Hg.
@@ -353,13 +353,48 @@ Definition layout_ok (sc : schema) (ly : layout) : Prop :=
   match ly with
   | Single => True
   | Assoc a | Mapped a => NoDup a /\ incl a (all_sets sc)
+  | AssocMany parts => NoDup (List.concat parts) /\ incl (List.concat parts) (all_sets sc)
   end.
 
 Lemma create_sim : forall sc ly t0, layout_ok sc ly -> sim (create_files sc ly t0) (create_store sc ly t0).
 Proof.
   intros sc ly t0 Hok.
   assert (Hall : NoDup (all_sets sc)) by apply seq_NoDup.
-  destruct ly as [| a | a]; simpl in Hok.
+  destruct ly as [| a | a | parts]; simpl in Hok.
+  4: { (* several associated files: every file has the species of the whole first trajectory *)
+    destruct Hok as [Hnd Hincl].
+    set (U := species_union (all_sets sc) t0).
+    set (files := create_files sc (AssocMany parts) t0).
+    assert (Hsets : flat_map f_sets files = minus (all_sets sc) (List.concat parts) ++ List.concat parts).
+    { unfold files. simpl. f_equal. clear. induction parts as [| a r IH]; simpl; auto. now rewrite IH. }
+    assert (Hsp : forall f, In f files -> f_species f = U /\ f_cells f = []).
+    { unfold files. simpl. intros f [<- | Hf]; [split; reflexivity |].
+      apply in_map_iff in Hf. destruct Hf as [a [<- _]]. split; reflexivity. }
+    assert (Hin_all : forall fs, In fs (flat_map f_sets files) <-> In fs (all_sets sc)).
+    { intro fs. rewrite Hsets, in_app_iff, minus_in. split.
+      - intros [[H _] | H]; auto.
+      - intro H. destruct (in_dec Nat.eq_dec fs (List.concat parts)); auto. }
+    constructor.
+    - split.
+      + apply Forall_forall. intros f Hf kv Hkv. destruct (Hsp f Hf) as [_ Hc]. rewrite Hc in Hkv. contradiction.
+      + fold files. rewrite Hsets. apply nodup_app_intro; auto; [now apply minus_nodup |].
+        intros x Hx Ha. apply minus_in in Hx. tauto.
+    - intro fs. unfold create_store. cbn [s_species phase1_sets]. fold U. rewrite lookup_with_species.
+      destruct (file_index fs files) as [j |] eqn:Ej.
+      + destruct (file_index_spec _ _ _ Ej) as [Hj Hfs].
+        assert (Hf : In (nth j files no_file) files) by (apply nth_In; auto).
+        destruct (Hsp _ Hf) as [-> _].
+        assert (In fs (all_sets sc)).
+        { apply Hin_all. apply in_flat_map. eauto. }
+        apply memb_in in H. now rewrite H.
+      + destruct (memb fs (all_sets sc)) eqn:E; auto. exfalso.
+        apply memb_in, Hin_all, in_flat_map in E. destruct E as [f [Hf Hfs]].
+        exact (file_index_none fs files Ej f Hf Hfs).
+    - intro k. unfold create_store. cbn [s_cells get]. unfold getc.
+      destruct (file_index (key_fs k) files) as [j |] eqn:Ej; auto.
+      destruct (file_index_spec _ _ _ Ej) as [Hj _].
+      assert (Hf : In (nth j files no_file) files) by (apply nth_In; auto).
+      destruct (Hsp _ Hf) as [_ ->]. reflexivity. }
   - constructor; simpl.
     + split.
       * apply Forall_cons; [intros kv H; simpl in H; contradiction | apply Forall_nil].
@@ -452,10 +487,10 @@ Qed.
 (* ---- a whole case: separate files = merged view ----------------------------------------------------- *)
 Theorem run_case_files_eq_merged : forall fixed sc ly worder rorder1 morder rorder ts,
   layout_ok sc ly ->
-  run_case fixed sc ly worder rorder1 morder rorder ts = run_case_merged fixed sc ly worder rorder1 morder rorder ts.
+  run_case_unbounded fixed sc ly worder rorder1 morder rorder ts = run_case_merged fixed sc ly worder rorder1 morder rorder ts.
 Proof.
   intros fixed sc ly worder rorder1 morder rorder ts Hok.
-  unfold run_case, run_case_merged. destruct ts as [| t0 ts']; auto.
+  unfold run_case_unbounded, run_case_merged. destruct ts as [| t0 ts']; auto.
   destruct (negb fixed && unset_species_field sc (phase1_sets sc ly) t0); auto.
   set (ts := t0 :: ts').
   pose proof (create_sim sc ly t0 Hok) as H0.
@@ -465,9 +500,8 @@ Proof.
   destruct (add_all fixed sc worder 0 ts (create_store sc ly t0)) as [st1 o1'].
   simpl in H1, E1, Hsp. subst o1'.
   destruct o1 as [[k e] |]; auto.
-  destruct ly as [| a | a].
-  - now rewrite (read_all_sim _ _ _ _ _ _ _ H1).
-  - now rewrite (read_all_sim _ _ _ _ _ _ _ H1).
+  destruct ly as [| a | a | parts];
+    try (now rewrite (read_all_sim _ _ _ _ _ _ _ H1)).
   - rewrite (load_traj_sim _ _ _ _ _ _ H1).
     destruct (load_traj fixed sc rorder1 0 st1); auto.
     destruct (negb fixed && unset_species_field sc a t0); auto.
@@ -491,9 +525,20 @@ Qed.
 (* ---- base + associated file in one CREATE = single file, for every input ------------------------------ *)
 Theorem assoc_reads_as_single : forall fixed sc a worder rorder1 morder rorder ts,
   layout_ok sc (Assoc a) ->
-  run_case fixed sc (Assoc a) worder rorder1 morder rorder ts = run_case fixed sc Single worder rorder1 morder rorder ts.
+  run_case_unbounded fixed sc (Assoc a) worder rorder1 morder rorder ts
+  = run_case_unbounded fixed sc Single worder rorder1 morder rorder ts.
 Proof.
   intros. rewrite (run_case_files_eq_merged _ _ (Assoc a)) by auto.
+  rewrite (run_case_files_eq_merged _ _ Single) by exact I. reflexivity.
+Qed.
+
+(* the same for any number of associated files *)
+Theorem assoc_many_reads_as_single : forall fixed sc parts worder rorder1 morder rorder ts,
+  layout_ok sc (AssocMany parts) ->
+  run_case_unbounded fixed sc (AssocMany parts) worder rorder1 morder rorder ts
+  = run_case_unbounded fixed sc Single worder rorder1 morder rorder ts.
+Proof.
+  intros. rewrite (run_case_files_eq_merged _ _ (AssocMany parts)) by auto.
   rewrite (run_case_files_eq_merged _ _ Single) by exact I. reflexivity.
 Qed.
 
@@ -632,3 +677,187 @@ Proof.
   - rewrite (load_traj_sim _ _ _ _ _ _ HsimS).
     apply (HloadS i t H H0). intros; eapply no_string_no_holes; eauto.
 Qed.
+
+(* ------------------------------------------------------------------------------------------- *)
+(* the trajectory dimension of every file: a record is never read beyond it                      *)
+(* ------------------------------------------------------------------------------------------- *)
+
+Lemma write_traj_c_lens : forall fixed sc i t order cst cst',
+  write_traj_c fixed sc order i t cst = inl cst' ->
+  List.length cst' = List.length cst /\
+  (forall fs, file_index fs cst' = file_index fs cst) /\
+  (forall k, f_len (nth k cst no_file) <= f_len (nth k cst' no_file)) /\
+  (forall fs k, In fs order -> file_index fs cst = Some k -> S i <= f_len (nth k cst' no_file)).
+Proof.
+  intros fixed sc i t. induction order as [| fs rest IH]; intros cst cst' H; simpl in H.
+  - inversion H; subst. repeat split; auto. intros fs k [].
+  - destruct (file_index fs cst) as [j |] eqn:Ej; [| discriminate].
+    destruct (file_index_spec _ _ _ Ej) as [Hj _].
+    set (f := nth j cst no_file) in *.
+    destruct (write_fields fixed (f_species f) fs i 0 (nth fs sc []) (nth fs t []) (f_cells f)) as [c' |]; [| discriminate].
+    set (cst1 := update_nth j (wrote f c' i) cst) in *.
+    destruct (IH cst1 cst' H) as (Hlen & Hidx & Hmono & Hwr).
+    assert (Hidx1 : forall fs', file_index fs' cst1 = file_index fs' cst).
+    { intro fs'. unfold cst1. now apply file_index_update. }
+    assert (Hmono1 : forall k, f_len (nth k cst no_file) <= f_len (nth k cst1 no_file)).
+    { intro k. unfold cst1. destruct (Nat.eq_dec k j) as [-> | Hne].
+      - rewrite nth_update_same by auto. simpl. fold f. lia.
+      - now rewrite nth_update_other. }
+    repeat split.
+    + rewrite Hlen. unfold cst1. apply update_nth_length.
+    + intro fs'. now rewrite Hidx, Hidx1.
+    + intro k. specialize (Hmono1 k). specialize (Hmono k). lia.
+    + intros fs' k [<- | Hin] Hk.
+      * rewrite Ej in Hk. inversion Hk; subst k.
+        specialize (Hmono j). unfold cst1 in Hmono at 1. rewrite nth_update_same in Hmono by auto.
+        simpl in Hmono. lia.
+      * apply (Hwr fs' k Hin). now rewrite Hidx1.
+Qed.
+
+Lemma add_all_c_lens : forall fixed sc order ts i cst cst',
+  add_all_c fixed sc order i ts cst = (cst', None) ->
+  (forall fs, file_index fs cst' = file_index fs cst) /\
+  (forall k, f_len (nth k cst no_file) <= f_len (nth k cst' no_file)) /\
+  (forall fs k, In fs order -> file_index fs cst = Some k -> ts <> [] -> i + List.length ts <= f_len (nth k cst' no_file)).
+Proof.
+  intros fixed sc order ts. induction ts as [| t r IH]; intros i cst cst' H; simpl in H.
+  - inversion H; subst. repeat split; auto. intros fs k _ _ Hne. now elim Hne.
+  - destruct (write_traj_c fixed sc order i t cst) as [c1 |] eqn:E; [| discriminate].
+    destruct (write_traj_c_lens _ _ _ _ _ _ _ E) as (_ & Hidx1 & Hmono1 & Hwr1).
+    destruct (IH (S i) c1 cst' H) as (Hidx & Hmono & Hwr).
+    repeat split.
+    + intro fs. now rewrite Hidx, Hidx1.
+    + intro k. specialize (Hmono1 k). specialize (Hmono k). lia.
+    + intros fs k Hin Hk _. simpl. destruct r as [| t' r'].
+      * simpl in H. inversion H; subst cst'. specialize (Hwr1 fs k Hin Hk). simpl. lia.
+      * assert (Hk1 : file_index fs c1 = Some k) by now rewrite Hidx1.
+        specialize (Hwr fs k Hin Hk1 ltac:(discriminate)). simpl in Hwr. simpl. lia.
+Qed.
+
+Lemma read_raw_b_eq : forall fixed sc i order cst,
+  (forall fs k, In fs order -> file_index fs cst = Some k -> i < f_len (nth k cst no_file)) ->
+  read_raw_b fixed sc order i cst = read_raw_c fixed sc order i cst.
+Proof.
+  intros fixed sc i. induction order as [| fs rest IH]; intros cst H; simpl; auto.
+  destruct (file_index fs cst) as [k |] eqn:Ek; auto.
+  rewrite IH by (intros fs' k' Hin' Hk'; apply (H fs' k'); auto; now right).
+  destruct (read_raw_c fixed sc rest i cst); auto.
+  replace (Nat.ltb i (f_len (nth k cst no_file))) with true; auto.
+  symmetry. apply Nat.ltb_lt. apply (H fs k); auto. now left.
+Qed.
+
+Lemma load_traj_b_eq : forall fixed sc i order cst,
+  (forall fs k, In fs order -> file_index fs cst = Some k -> i < f_len (nth k cst no_file)) ->
+  load_traj_b fixed sc order i cst = load_traj_c fixed sc order i cst.
+Proof. intros. unfold load_traj_b, load_traj_c. now rewrite read_raw_b_eq. Qed.
+
+Lemma read_all_b_eq : forall fixed sc order n i cst,
+  (forall fs k, In fs order -> file_index fs cst = Some k -> i + n <= f_len (nth k cst no_file)) ->
+  read_all_b fixed sc order i n cst = read_all_c fixed sc order i n cst.
+Proof.
+  intros fixed sc order. induction n as [| n IH]; intros i cst H; simpl; auto.
+  rewrite load_traj_b_eq, IH; auto.
+  - intros fs k Hin Hk. specialize (H fs k Hin Hk). lia.
+  - intros fs k Hin Hk. specialize (H fs k Hin Hk). lia.
+Qed.
+
+Lemma map_all_b_eq : forall fixed sc r1 m ts i cst,
+  (forall fs k, In fs r1 -> file_index fs cst = Some k -> i + List.length ts <= f_len (nth k cst no_file)) ->
+  map_all_b fixed sc r1 m i ts cst = map_all_c fixed sc r1 m i ts cst.
+Proof.
+  intros fixed sc r1 m ts. induction ts as [| t r IH]; intros i cst H; simpl; auto.
+  rewrite load_traj_b_eq.
+  - destruct (load_traj_c fixed sc r1 i cst); auto.
+    destruct (write_traj_c fixed sc m i t cst) as [c1 |] eqn:E; auto.
+    destruct (write_traj_c_lens _ _ _ _ _ _ _ E) as (_ & Hidx & Hmono & _).
+    apply IH. intros fs k Hin Hk. rewrite Hidx in Hk. specialize (H fs k Hin Hk). specialize (Hmono k). simpl in H. lia.
+  - intros fs k Hin Hk. specialize (H fs k Hin Hk). simpl in H. lia.
+Qed.
+
+Lemma map_all_c_lens : forall fixed sc r1 m ts i cst cst',
+  map_all_c fixed sc r1 m i ts cst = (cst', None) ->
+  (forall fs, file_index fs cst' = file_index fs cst) /\
+  (forall k, f_len (nth k cst no_file) <= f_len (nth k cst' no_file)) /\
+  (forall fs k, In fs m -> file_index fs cst = Some k -> ts <> [] -> i + List.length ts <= f_len (nth k cst' no_file)).
+Proof.
+  intros fixed sc r1 m ts. induction ts as [| t r IH]; intros i cst cst' H; simpl in H.
+  - inversion H; subst. repeat split; auto. intros fs k _ _ Hne. now elim Hne.
+  - destruct (load_traj_c fixed sc r1 i cst); [| discriminate].
+    destruct (write_traj_c fixed sc m i t cst) as [c1 |] eqn:E; [| discriminate].
+    destruct (write_traj_c_lens _ _ _ _ _ _ _ E) as (_ & Hidx1 & Hmono1 & Hwr1).
+    destruct (IH (S i) c1 cst' H) as (Hidx & Hmono & Hwr).
+    repeat split.
+    + intro fs. now rewrite Hidx, Hidx1.
+    + intro k. specialize (Hmono1 k). specialize (Hmono k). lia.
+    + intros fs k Hin Hk _. simpl. destruct r as [| t' r'].
+      * simpl in H. inversion H; subst cst'. specialize (Hwr1 fs k Hin Hk). simpl. lia.
+      * assert (Hk1 : file_index fs c1 = Some k) by now rewrite Hidx1.
+        specialize (Hwr fs k Hin Hk1 ltac:(discriminate)). simpl in Hwr. simpl. lia.
+Qed.
+
+(* Reading index i < number of trajectories never runs past the trajectory dimension of ANY file — also of a
+   file in which nothing was written at i because every field there was unset: the coordinate write of
+   _write_data extends each file that holds a written field set.  Hence the model with dimension lengths
+   ([run_case]) and the one without ([run_case_unbounded]) agree whenever the field sets that are read are
+   among those that were written. *)
+Theorem reads_stay_within_every_file : forall fixed sc ly worder rorder1 morder rorder ts,
+  incl rorder1 worder ->
+  incl rorder (worder ++ match ly with Mapped _ => morder | _ => [] end) ->
+  run_case fixed sc ly worder rorder1 morder rorder ts = run_case_unbounded fixed sc ly worder rorder1 morder rorder ts.
+Proof.
+  intros fixed sc ly worder rorder1 morder rorder ts Hr1 Hr.
+  unfold run_case, run_case_unbounded. destruct ts as [| t0 ts']; auto.
+  destruct (negb fixed && unset_species_field sc (phase1_sets sc ly) t0); auto.
+  set (ts := t0 :: ts') in *.
+  destruct (add_all_c fixed sc worder 0 ts (create_files sc ly t0)) as [st o] eqn:Ea.
+  destruct o as [[k e] |]; auto.
+  destruct (add_all_c_lens _ _ _ _ _ _ _ Ea) as (Hidx & _ & Hlen).
+  assert (Hw : forall fs k, In fs worder -> file_index fs st = Some k -> List.length ts <= f_len (nth k st no_file)).
+  { intros fs k Hin Hk. rewrite Hidx in Hk. specialize (Hlen fs k Hin Hk ltac:(discriminate)). lia. }
+  destruct ly as [| a | a | parts].
+  - rewrite read_all_b_eq; auto. intros fs k Hin Hk. simpl. apply (Hw fs k); auto.
+    apply Hr in Hin. rewrite app_nil_r in Hin. exact Hin.
+  - rewrite read_all_b_eq; auto. intros fs k Hin Hk. simpl. apply (Hw fs k); auto.
+    apply Hr in Hin. rewrite app_nil_r in Hin. exact Hin.
+  - rewrite load_traj_b_eq.
+    2: { intros fs k Hin Hk. specialize (Hw fs k (Hr1 fs Hin) Hk). simpl in Hw. lia. }
+    destruct (load_traj_c fixed sc rorder1 0 st); auto.
+    destruct (negb fixed && unset_species_field sc a t0); auto.
+    set (st2 := add_mapped_file_c a t0 st).
+    assert (Hkeep : forall fs k, file_index fs st = Some k ->
+              file_index fs st2 = Some k /\ nth k st2 no_file = nth k st no_file).
+    { intros fs k Hk. unfold st2, add_mapped_file_c. rewrite file_index_app, Hk. split; auto.
+      apply app_nth1. now destruct (file_index_spec _ _ _ Hk). }
+    assert (Hw2 : forall fs k, In fs worder -> file_index fs st2 = Some k -> List.length ts <= f_len (nth k st2 no_file)).
+    { intros fs k Hin Hk. destruct (file_index fs st) as [k0 |] eqn:E0.
+      - destruct (Hkeep fs k0 E0) as [Hk' Hn]. rewrite Hk' in Hk. inversion Hk; subst k0. rewrite Hn. now apply (Hw fs).
+      - (* a written field set has a file: otherwise the adds would have failed *)
+        exfalso. rewrite Hidx in E0. clear - Ea E0 Hin. unfold ts in Ea. cbn [add_all_c] in Ea.
+        assert (G : forall order cst, In fs order -> file_index fs cst = None ->
+                  exists e, write_traj_c fixed sc order 0 t0 cst = inr e).
+        { induction order as [| x r IH]; intros cst [] Hn.
+          - subst x. simpl. rewrite Hn. eauto.
+          - simpl. destruct (file_index x cst) as [j |] eqn:Ej; [| eauto].
+            destruct (write_fields _ _ _ _ _ _ _ _) as [c' |]; [| eauto].
+            apply IH; auto. rewrite file_index_update; auto.
+            now destruct (file_index_spec _ _ _ Ej). }
+        destruct (G worder _ Hin E0) as [e He]. rewrite He in Ea. discriminate. }
+    rewrite map_all_b_eq.
+    2: { intros fs k Hin Hk. simpl. apply (Hw2 fs k); auto. }
+    destruct (map_all_c fixed sc rorder1 morder 0 ts st2) as [st3 o3] eqn:Em.
+    destruct o3 as [[k e] |]; auto.
+    destruct (map_all_c_lens _ _ _ _ _ _ _ _ Em) as (Hidx3 & Hmono3 & Hlen3).
+    rewrite read_all_b_eq; auto.
+    intros fs k Hin Hk. simpl. rewrite Hidx3 in Hk.
+    apply Hr, in_app_or in Hin. destruct Hin as [Hin | Hin].
+    + specialize (Hw2 fs k Hin Hk). specialize (Hmono3 k). unfold ts in *. simpl in *. lia.
+    + specialize (Hlen3 fs k Hin Hk ltac:(discriminate)). unfold ts in *. simpl in *. lia.
+  - rewrite read_all_b_eq; auto. intros fs k Hin Hk. simpl. apply (Hw fs k); auto.
+    apply Hr in Hin. rewrite app_nil_r in Hin. exact Hin.
+Qed.
+
+Corollary run_case_eq_merged : forall fixed sc ly worder rorder1 morder rorder ts,
+  layout_ok sc ly -> incl rorder1 worder ->
+  incl rorder (worder ++ match ly with Mapped _ => morder | _ => [] end) ->
+  run_case fixed sc ly worder rorder1 morder rorder ts = run_case_merged fixed sc ly worder rorder1 morder rorder ts.
+Proof. intros. rewrite reads_stay_within_every_file by auto. now apply run_case_files_eq_merged. Qed.
